@@ -5,17 +5,21 @@ package main
 //   nsqvc check -prop C12 [-tier quick|thorough] [-fn substr]
 //   nsqvc lock                       regenerate contracts.lock from the current tree
 //   nsqvc dump -fn substr            print SSA and obligations of matching functions
+//   nsqvc uncovered                  list the repository functions (incl. function literals) without a contract
 
 import (
 	"encoding/json"
 	"flag"
 	"fmt"
+	"go/types"
 	"os"
 	"os/exec"
 	"path/filepath"
 	"sort"
 	"strings"
 	"time"
+
+	"golang.org/x/tools/go/ssa"
 )
 
 const verifDir = "/verif"
@@ -24,7 +28,7 @@ var extraTrusted *string
 
 func main() {
 	if len(os.Args) < 2 {
-		fmt.Fprintln(os.Stderr, "usage: nsqvc check|lock|dump ...")
+		fmt.Fprintln(os.Stderr, "usage: nsqvc check|lock|dump|uncovered ...")
 		os.Exit(2)
 	}
 	cmd := os.Args[1]
@@ -48,6 +52,8 @@ func main() {
 		os.Exit(runLock(*repo, *outDir))
 	case "dump":
 		os.Exit(runDump(*repo, *fnFilter))
+	case "uncovered":
+		os.Exit(runUncovered(*repo))
 	}
 	fmt.Fprintln(os.Stderr, "unknown command", cmd)
 	os.Exit(2)
@@ -122,6 +128,62 @@ func runDump(repo, filter string) int {
 			}
 		}
 	}
+	return 0
+}
+
+// runUncovered lists every function of the loaded repository packages (methods and function literals included) that has no contract.
+func runUncovered(repo string) int {
+	e, err := setup(repo)
+	if err != nil {
+		fmt.Fprintln(os.Stderr, "nsqvc:", err)
+		return 2
+	}
+	total, without := 0, 0
+	var lines []string
+	for path, sp := range e.ssaPkgs {
+		if !e.built[path] || !e.inRepo(path) {
+			continue
+		}
+		seen := map[*ssa.Function]bool{}
+		var visit func(f *ssa.Function)
+		visit = func(f *ssa.Function) {
+			if f == nil || seen[f] || len(f.Blocks) == 0 || f.Synthetic != "" {
+				return
+			}
+			seen[f] = true
+			if pos := e.fset.Position(f.Pos()); strings.HasSuffix(pos.Filename, "_test.go") {
+				return
+			}
+			total++
+			if e.fnContract[f] == nil {
+				without++
+				lines = append(lines, fmt.Sprintf("%s\t%s", e.displayName(f), e.fset.Position(f.Pos())))
+			}
+			for _, a := range f.AnonFuncs {
+				visit(a)
+			}
+		}
+		for _, m := range sp.Members {
+			switch m := m.(type) {
+			case *ssa.Function:
+				visit(m)
+			case *ssa.Type:
+				for _, recv := range []types.Type{m.Type(), types.NewPointer(m.Type())} {
+					ms := e.prog.MethodSets.MethodSet(recv)
+					for i := 0; i < ms.Len(); i++ {
+						if f := e.prog.MethodValue(ms.At(i)); f != nil && f.Pkg == sp {
+							visit(f)
+						}
+					}
+				}
+			}
+		}
+	}
+	sort.Strings(lines)
+	for _, l := range lines {
+		fmt.Println(l)
+	}
+	fmt.Printf("%d functions (incl. function literals) in the loaded repository packages, %d without a contract\n", total, without)
 	return 0
 }
 
@@ -248,7 +310,7 @@ func propFuncs(e *Engine, prop string) ([]*FuncContract, map[*FuncContract]bool)
 		if err != nil {
 			continue
 		}
-		for _, m := range []map[string]*FuncContract{t.usedContracts, t.spawned} {
+		for _, m := range []map[string]*FuncContract{t.usedContracts, t.spawned, t.shadowed} {
 			for _, used := range m {
 				if used == nil || used.Extern || e.contractFn[used] == nil || sel[used] {
 					continue
